@@ -272,11 +272,18 @@ Vector Spherical_Coordinates(double r, double theta, double phi)
 Vector Spherical_Coordinates(double r, double theta, double phi, const Vector& axis)
 {
 	libphysica::Vector ev = axis.Normalized();
-	if(ev[2] == 1.0 || axis.Norm() == 0.0)
+	// Length of the projection of the axis onto the x-y plane. (Computing it as sqrt(1-ev_z^2) cancels catastrophically for axes close to +-z.)
+	double aux = sqrt(ev[0] * ev[0] + ev[1] * ev[1]);
+	if(axis.Norm() == 0.0 || (aux == 0.0 && ev[2] > 0.0))
 		return Spherical_Coordinates(r, theta, phi);
+	else if(aux == 0.0)
+	{
+		// Axis antiparallel to z: right-handed frame (-x, y) around -z.
+		std::vector<double> comp = {-r * sin(theta) * cos(phi), r * sin(theta) * sin(phi), -r * cos(theta)};
+		return Vector(comp);
+	}
 	else
 	{
-		double aux = sqrt(1.0 - pow(ev[2], 2.0));
 
 		double cos_theta = cos(theta);
 		double sin_theta = sqrt(1.0 - cos_theta * cos_theta);
